@@ -121,6 +121,30 @@ def inproc(ctx):
         add(cfg, fo, cut, "open-tail", check=False)
         add(cfg, fo, evs, "open-tail-full", check=False)
         prefix_pairs.append((len(cases) - 2, len(cases) - 1))
+    # 3b. the shadow stack overflows several times and the history ends at the bottom of the last dive (exit() called
+    #     beyond --max-stack): the overflow flush of mcount_check_rstack is the only thing that writes the ENTRY records
+    #     of the open chain, and it must run at EVERY descent through the limit (C02_overflow_flushes_open_chain)
+    for shape in ("pg", "cyg"):
+        for ms, episodes in ((3, 2), (5, 3)) + (((8, 5),) if ctx.thorough() else ()):
+            t = 1000
+            kids = []
+            for _ in range(episodes):
+                d = chain(ms + 2, t0=t + 1, k=1)[0]
+                kids.append(d)
+                t = d.t1 + 1
+            root = F.Call(0, 999, t + 1, kids)
+            evs = F.flatten([root])
+            last_enter = max(i for i, e in enumerate(evs) if e[0] == "E")
+            cfg = {"shape": shape, "trig": {}, "max_stack": ms + 1}       # root + ms levels of the dive fit
+            add(cfg, [root], evs[:last_enter + 1], "overflow-open", check=False,
+                tags=["overflow-episodes=%d" % episodes, "ends-beyond-max-stack"])
+            i = len(cases) - 1
+            want = ms            # the ms dive levels inside the limit are still open: their ENTRY records end the stream
+            opened = [r for r in cases[i]["res"]["recs"][-want:] if r[1] == 0]
+            if len(opened) != want or [r[3] for r in opened] != list(range(1, ms + 1)):
+                ctx.violation("a history that ends beyond --max-stack during overflow number %d leaves only %d of the %d "
+                              "ENTRY records of its open calls" % (episodes, len(opened), want),
+                              {"cfg": cfg, "events": evs[:last_enter + 1], "impl_records": cases[i]["res"]["recs"]}, True)
     # 4. fast / single variants
     for variant in ("-fast", "-single", "-fast-single"):
         for _ in range(ctx.n(6, 60)):
